@@ -23,7 +23,7 @@ EXPLANATION = ('Each raster / text serialiser executed once per (size, scale, bo
                'written bytes are terms over those bits; a reader of the format turns them into one colour term per pixel; z3 shows the '
                'pixel colour is the dark / light colour of the module under it for every matrix. Declared dimensions == pixel data.')
 BOUNDS = {'quick': 'sizes 11, 13, 21, 25 (+45 for PNG/PBM); scale 1, 2, 3 and 2.7 (truncation); border None, 0, 1, 5; colour configurations listed in the evidence; colourful PNG/PPM on M2, 1, 7',
-          'thorough': 'all 44 sizes at scale 1 default border for every format (PNG and compact terminal: sizes <= 89); sizes <= 45 with scales 1-4'}
+          'thorough': 'all 44 sizes at scale 1 default border for every format (PNG: sizes <= 77, compact terminal: sizes <= 89); sizes <= 45 with scales 1-4'}
 OUTSIDE = 'scale > 4; the zlib stream itself (compress stubbed to a marked identity); dpi beyond the listed values; ANSI terminal beyond 2 x 5 matrices (it branches per module while writing)'
 STUBS = ['zlib.compress -> marker + unchanged bytes', 'zlib.crc32 -> fresh 32-bit token recorded with the bytes it was computed over', 'struct.pack -> symbolic-aware model']
 ASSUMPTIONS = ['format readers in /verif/props/c09.py follow the PNG / Netpbm / XBM / XPM specifications', 'reference colour values for the names used (HTML4 / CSS3 basics)', 'z3 soundness']
@@ -76,8 +76,8 @@ def jobs(tier, seed):
     small = (11, 21)
     for fmt in ('pbm', 'pam', 'xbm', 'xpm', 'png'):
         for n in ((11, 13, 21, 25) if tier == 'quick' else sizes_all):
-            if fmt == 'png' and n > 89:
-                continue        # measured: the side-condition query of the PNG reader comes back unknown from 101 x 101 on under load
+            if fmt == 'png' and n > 77:
+                continue        # measured: the side-condition query of the PNG reader comes back unknown from 81 x 81 on under load
             add(fmt, n)
         for n in small:
             for scale, border in ((2, None), (3, 0), (1, 0), (1, 1), (2, 5), (2.7, 1)) + (((4, 2),) if tier == 'thorough' else ()):
